@@ -2,54 +2,22 @@
    Only theorem statements here; each is closed by a lemma from
    Proofs/ReaderSplitProofs.v.  Model: Model/ReaderSplit.v (a reader is a script
    of responses (bytes, io.EOF-or-nil); [delivers sc d]: the script is a
-   reader — io.EOF on its last response at most — whose bytes are d). *)
+   reader — io.EOF on its last response at most — whose bytes are d).
+   The statements are about the reader as repaired by /repo e4074d6; the
+   witnesses of the former defects are pinned in harness/cmd/vh/c28.go. *)
 From CE Require Import Model.ReaderSplit Proofs.ReaderSplitProofs.
 Open Scope N_scope.
 
-(* The property for the CBE entry points (NewCBEDecoder().Decode, UnmarshalCBE):
-   whatever the script, the decoder delivers the events and the error-or-not
-   it delivers from memory. *)
-Definition C28_full : Prop :=
+(* The CBE entry points (NewCBEDecoder().Decode, UnmarshalCBE): whatever the
+   script — any split, zero-length reads anywhere, the last data together with
+   io.EOF — the decoder delivers the events and the error-or-not it delivers
+   from memory; all documents, valid or not; every size limit. *)
+Theorem C28_cbe_stream_eq_memory :
   forall maxdoc sc d, delivers sc d -> decode_stream maxdoc sc = decode_mem maxdoc d.
+Proof. exact stream_eq_memory. Qed.
+Print Assumptions C28_cbe_stream_eq_memory.
 
-(* The code violates it: [81 00 01] delivered in one response together with
-   io.EOF loses the object (ReadTypeOrEOF takes any error for the end) ... *)
-Theorem C28_full_refuted : ~ C28_full.
-Proof. exact stream_eq_memory_refuted. Qed.
-Print Assumptions C28_full_refuted.
-
-(* ... defect class 1: a response carrying data together with io.EOF (no zero-length read involved) *)
-Theorem C28_data_with_eof_refuted :
-  exists maxdoc sc d, delivers sc d /\ has_zero_read sc = false /\
-    decode_stream maxdoc sc <> decode_mem maxdoc d.
-Proof. exact stream_eq_memory_refuted_data_eof. Qed.
-Print Assumptions C28_data_with_eof_refuted.
-
-(* ... defect class 2: a (0, nil) response (no data+EOF involved): a stale byte is decoded *)
-Theorem C28_zero_length_read_refuted :
-  exists maxdoc sc d, delivers sc d /\ has_data_eof sc = false /\
-    decode_stream maxdoc sc <> decode_mem maxdoc d.
-Proof. exact stream_eq_memory_refuted_zero_read. Qed.
-Print Assumptions C28_zero_length_read_refuted.
-
-(* The property holds on the scripts that exclude exactly these two classes:
-   responses of k>0 bytes without error, optionally one final (0, io.EOF) —
-   every split of the document, one byte per call included; all documents,
-   valid or not; every size limit. *)
-Theorem C28_cbe_stream_eq_memory_partial :
-  forall maxdoc sc d, delivers sc d -> good_script sc = true ->
-    decode_stream maxdoc sc = decode_mem maxdoc d.
-Proof. exact stream_eq_memory_partial. Qed.
-Print Assumptions C28_cbe_stream_eq_memory_partial.
-
-(* What [good_script] leaves out is nothing but the two defect classes. *)
-Theorem C28_good_script_excludes :
-  forall sc, good_script sc = true -> has_zero_read sc = false /\ has_data_eof sc = false.
-Proof. exact good_excludes. Qed.
-Print Assumptions C28_good_script_excludes.
-
-(* The CTE entry points (NewCTEDecoder().Decode, UnmarshalCTE) satisfy the
-   property in full: every reader, zero-length reads and data+EOF included,
+(* The CTE entry points (NewCTEDecoder().Decode, UnmarshalCTE): every reader
    hands the parser the same text as the in-memory entry point. *)
 Theorem C28_cte_stream_eq_memory :
   forall (R : Type) (cte_parse : bytes -> outcome R) sc d,
@@ -57,15 +25,36 @@ Theorem C28_cte_stream_eq_memory :
 Proof. exact cte_stream_eq_memory. Qed.
 Print Assumptions C28_cte_stream_eq_memory.
 
-(* The universal entry points (NewCEDecoder().Decode, UnmarshalCE: bufio +
-   Peek + dispatch) on the same script class, for CBE and CTE documents and
-   for documents of neither format. *)
+(* The full property for the universal entry points (NewCEDecoder().Decode,
+   UnmarshalCE: bufio.Reader + Peek(1) + dispatch) ... *)
+Definition C28_ce_full : Prop :=
+  forall (R : Type) maxdoc (cte_parse : bytes -> outcome R) (cbe_build : result -> outcome R) sc d,
+    delivers sc d ->
+    ce_stream maxdoc cte_parse cbe_build sc = ce_mem maxdoc cte_parse cbe_build d.
+
+(* ... holds for every reader with fewer than 100 zero-length reads, for CBE
+   and CTE documents and for documents of neither format ... *)
 Theorem C28_ce_stream_eq_memory_partial :
   forall (R : Type) maxdoc (cte_parse : bytes -> outcome R) (cbe_build : result -> outcome R) sc d,
-    delivers sc d -> good_script sc = true ->
+    delivers sc d -> (script_zeros sc < 100)%nat ->
     ce_stream maxdoc cte_parse cbe_build sc = ce_mem maxdoc cte_parse cbe_build d.
 Proof. exact ce_stream_eq_memory_partial. Qed.
 Print Assumptions C28_ce_stream_eq_memory_partial.
+
+(* ... and the bound is exact: bufio.Reader gives up (io.ErrNoProgress) after
+   100 consecutive empty reads, so a reader that starts with 100 of them makes
+   UnmarshalCE fail on a document that UnmarshalFromCEDocument decodes.  This is
+   the standard library's documented limit, not a defect of /repo. *)
+Theorem C28_ce_hundred_empty_reads_refuted :
+  exists sc d, delivers sc d /\ (script_zeros sc = 100)%nat /\
+    ce_stream 5368709120 (fun _ => Err) (fun r : result => Ok r) sc
+    <> ce_mem 5368709120 (fun _ => Err) (fun r : result => Ok r) d.
+Proof. exact ce_stream_zero_reads_refuted. Qed.
+Print Assumptions C28_ce_hundred_empty_reads_refuted.
+
+Theorem C28_ce_full_refuted : ~ C28_ce_full.
+Proof. exact ce_full_refuted. Qed.
+Print Assumptions C28_ce_full_refuted.
 
 (* The model's fuel is never exhausted: SHang is not an outcome of any script
    (the loops of the reader and of the decoder terminate on every finite script). *)
@@ -75,15 +64,25 @@ Proof. exact stream_never_hangs. Qed.
 Print Assumptions C28_model_never_hangs.
 
 (* Non-vacuity: a document with a list, a 2-byte integer and a chunked string,
-   split into five responses and a final (0, io.EOF), is a good reader of it,
-   and the decoder delivers 11 events without error. *)
-Example C28_example_good :
+   delivered with zero-length reads in front, inside the integer and inside the
+   chunk header, and the last bytes together with io.EOF: a reader of it with
+   both awkward response kinds, decoded like from memory (11 events, no error). *)
+Example C28_example :
   let d := [129; 0; 154; 106; 52; 18; 144; 5; 97; 98; 2; 99; 155] in
-  let sc := [([129], false); ([0; 154; 106], false); ([52], false); ([18; 144; 5; 97], false);
-             ([98; 2; 99; 155], false); ([], true)] in
-  delivers sc d /\ good_script sc = true /\
+  let sc := [([], false); ([129], false); ([0; 154; 106], false); ([52], false); ([], false); ([], false);
+             ([18; 144], false); ([], false); ([5; 97], false); ([98; 2; 99; 155], true)] in
+  delivers sc d /\ has_zero_read sc = true /\ has_data_eof sc = true /\
   decode_stream 5368709120 sc = decode_mem 5368709120 d /\
   snd (decode_mem 5368709120 d) = SOk /\ length (fst (decode_mem 5368709120 d)) = 11%nat.
+Proof. vm_compute. repeat split. Qed.
+
+(* The witnesses of the repaired defects now agree with memory. *)
+Example C28_former_witnesses :
+  decode_stream 5368709120 [([129; 0; 1], true)] = decode_mem 5368709120 [129; 0; 1] /\
+  decode_stream 5368709120 [([129; 0], false); ([], false); ([1], false)] = decode_mem 5368709120 [129; 0; 1] /\
+  decode_stream 5368709120 [([], false); ([129], false); ([], false); ([0; 1], true)] = decode_mem 5368709120 [129; 0; 1] /\
+  decode_stream 5368709120 [([129; 128], false); ([], false); ([128; 0; 154; 155], false)]
+    = decode_mem 5368709120 [129; 128; 128; 0; 154; 155].
 Proof. vm_compute. repeat split. Qed.
 
 (* Non-vacuity of the CTE statement: a reader with a zero-length read and data+EOF. *)
